@@ -2,8 +2,9 @@ import Tengo.Props.C17
 import Tengo.Props.C17Multi
 import Tengo.Props.C17Star
 import Tengo.Props.C17Hex
+import Tengo.Props.C17U
 /-! C17: the per-directive theorems (`C17`: tables, progress, no panic, length, integer digits, `M = G`
 per verb family and for single-directive formats) and `M = G` for whole format strings with any number
 of directives, `%%` and literal text (`C17Multi`), and with the full directive syntax — flag sets, `*`, `[n]` and
 the BAD* renderings (`C17Star`) —, and `M = G` for `%x`/`%X` on strings and byte slices incl. whole format strings
-with such directives (`C17Hex`), as one module for the checker. -/
+with such directives (`C17Hex`), and `M = G` for `%U` on ints (`C17U`), as one module for the checker. -/
